@@ -14,7 +14,7 @@ RULE = (
 ASSUMPTIONS = ["depth <= 100 (pickle/deepcopy recursion limits are Python's)", "node classes are importable module-level classes (a pickle requirement)"]
 GATES = ["mon.C19.bijection", "mon.C19.independence", "C19.pickle", "C19.deepcopy", "C19.symlink_inside", "C19.symlink_outside", "C19.link_to_link", "C19.slots", "C19.entry_not_root", "C19.special_method_classes"]
 
-MIXES = ("Node", "AnyNode", "NM", "LM", "MIXSYM", "HNode", "FALSY", "VALNM", "VALLM", "FALSYNODE")
+MIXES = ("Node", "AnyNode", "NM", "LM", "MIXSYM", "HNode", "FALSY", "VALNM", "VALLM", "FALSYNODE", "LMSUB", "FALSYLM")
 
 
 def plan(tier, seed, jobs):
@@ -44,6 +44,11 @@ def build(par, mix, rng):
         nodes = [F.ValNM("n%d" % i, i % 2) for i in range(n)]  # distinct nodes compare and hash equal
     elif mix == "VALLM":
         nodes = [F.ValLM("n%d" % i, i % 2) for i in range(n)]
+    elif mix == "LMSUB":
+        # slotted base class first (root), then subclasses that add slots of their own
+        nodes = [F.LM("n%d" % i) if i % 3 == 0 else F.LM2("n%d" % i, extra=("x", i), more=[i]) for i in range(n)]
+    elif mix == "FALSYLM":
+        nodes = [F.FalsyLM("n%d" % i, i % 2) for i in range(n)]
     elif mix == "HNode":
         nodes = [F.HNode("n%d" % i, w=i * 1.5) for i in range(n)]
     else:
@@ -242,7 +247,7 @@ def check_tree(ctx, par, mix, case, entries, hows, seedtag):
                 ctx.count("C19.symlink_outside")
                 if len(par) >= 4:
                     ctx.count("C19.link_to_link")
-            if mix in ("LM", "VALLM"):
+            if mix in ("LM", "VALLM", "LMSUB", "FALSYLM"):
                 ctx.count("C19.slots")
             if mix in ("FALSY", "FALSYNODE", "VALNM", "VALLM"):
                 ctx.count("C19.special_method_classes")
@@ -254,7 +259,7 @@ def check_tree(ctx, par, mix, case, entries, hows, seedtag):
 
 
 def hows_for(mix):
-    if mix in ("LM", "VALLM"):
+    if mix in ("LM", "VALLM", "LMSUB", "FALSYLM"):
         return ["2", "3", "4", "5", "deepcopy"]
     return ["0", "1", "2", "3", "4", "5", "deepcopy"]
 
